@@ -2,6 +2,8 @@ use crate::report::{Ctx, Report};
 
 pub mod c01;
 pub mod c02;
+pub mod c03;
+pub mod c04;
 pub mod c05;
 pub mod c08;
 pub mod c09;
@@ -28,6 +30,8 @@ pub fn run(ctx: &Ctx, rep: &mut Report) {
         }
         "C01" => c01::run(ctx, rep),
         "C02" => c02::run(ctx, rep),
+        "C03" => c03::run(ctx, rep),
+        "C04" => c04::run(ctx, rep),
         "C05" => c05::run(ctx, rep),
         "C08" => c08::run(ctx, rep),
         "C09" => c09::run(ctx, rep),
